@@ -383,8 +383,13 @@ class Interp:
             return False
         if isinstance(v, (list, tuple, dict, str, set)):
             return len(v) > 0
-        if isinstance(v, Arr):
-            return len(v.items) > 0
+        if isinstance(v, (Arr, BoolVec)):
+            # numpy: the truth value of an array with more than one element is ambiguous
+            if len(v.items) == 0:
+                return False
+            if len(v.items) == 1:
+                return self.truth(v.items[0], node)
+            raise _Raise(ExcV("ValueError", ["The truth value of an array with more than one element is ambiguous"]))
         if is_num(v):
             s = self.sign_of(v)
             if s is None:
